@@ -108,7 +108,6 @@ def run_script(stream, script):
         if again is not DEV.READ_EOF:
             problems.append(("eof-not-stable", f"readline after READ_EOF returned {again!r}"))
     lines = [r for r in results if r]
-    expected = [l for l in stream.splitlines(keepends=True)] if b"\r" not in stream else split_lf(stream)
     expected = split_lf(stream)
     if b"".join(lines) != stream:
         kind = "bytes-lost" if len(b"".join(lines)) < len(stream) else ("bytes-duplicated" if len(b"".join(lines)) > len(stream) else "bytes-reordered")
@@ -246,6 +245,19 @@ def run(tier, seed):
         for t in itertools.product(b"a\n", repeat=L):
             items.append(("short", (bytes(t), max_none if L <= 6 else 1)))
             nstreams += 1
+    crlen = 5 if tier == "quick" else 7
+    ncr = 0
+    for L in range(1, crlen + 1):
+        for t in itertools.product(b"a\n\r", repeat=L):
+            if 13 in t:
+                items.append(("short", (bytes(t), 1)))
+                ncr += 1
+    exlen = 3 if tier == "quick" else 4
+    for L in range(1, exlen + 1):
+        for t in itertools.product(b"a\n\r\x00\x0c\x1c\x85\xff", repeat=L):
+            if set(t) & {0, 12, 28, 0x85, 0xff}:
+                items.append(("short", (bytes(t), 1)))
+                ncr += 1
     longs = list(long_cases())
     items += [("long", x) for x in longs]
     results = pmap(_work, items)
@@ -260,14 +272,15 @@ def run(tier, seed):
         "evaluations": total,
         "distinct_nontrivial": len(outcomes),
         "rule": (f"every byte string over {{a, LF}} of length <= {maxlen} ({nstreams} streams) x every composition into chunks x every "
-                 f"placement of <= {max_none} (<= 1 for streams longer than 6 bytes) no-data-yet answers (select false or select true), also right before end-of-stream; plus "
+                 f"placement of <= {max_none} (<= 1 for streams longer than 6 bytes) no-data-yet answers (select false or select true), also right before end-of-stream; "
+                 f"every byte string over {{a, LF, CR}} of length <= {crlen} containing a CR and over {{a, LF, CR, NUL, FF, FS, 0x85, 0xff}} of length <= {exlen} containing one of the last five ({ncr} streams; only LF ends a line) x every composition x <= 1 no-data-yet answer; plus "
                  f"{len(longs)} long-stream fragmentations (8 streams up to 513 bytes x cyclic chunk-size patterns over {{1,2,100,255,256}}, "
                  "<= 1 'no data yet'); each script is run through the real Device (socket flavour, connect() with socket/selectors "
                  "substituted) calling readline() until READ_EOF; distinct = distinct result sequences"),
         "exhaustive": True,
         "exhaustive_note": "the stated script space is enumerated completely; streams outside it are not covered",
         "samples": [{"stream": "a\\na", "script": [[97], ["none", True], [10, 97]], "results": ["a\\n", "a", None]}],
-        "streams": nstreams, "long_cases": len(longs),
+        "streams": nstreams, "cr_streams": ncr, "long_cases": len(longs),
     }
     res.assumptions = ["socket file read(256) returns bytes, None (no data yet) or b'' (end of stream); selector answer scripted",
                        "lines are cut after LF only (CR is data)"]
